@@ -1,13 +1,20 @@
 """C05 — DoWhile unrolling is wired correctly for any number of iterations.
 
-sub `unroll`  : a generated DoWhile workflow (vf/gen/c05_docs.py) is loaded into a real Experiment instance; then, exactly
-                like Controller._instantiate_next_dowhile_iteration does, `instantiate_dowhile_next_iteration(doc,
-                currentIteration+1, True)` is called k times (working directory + Job created for every new node). After
-                *every* step the real WorkflowGraph is compared with the reference model (vf/model/c05_dowhile.py):
-                node set, inputs/predecessors of every looped instance, placeholder metadata (`represents`, `latest`),
-                DoWhile state, and the value of DataReference.resolve() for every reference that consumers outside the
-                loop hold on looped components (:ref/:copy paths, :output contents, :loopref / :loopoutput lists).
+sub `unroll`  : a generated DoWhile workflow (vf/gen/c05_docs.py) is loaded into a real Experiment instance; then, the way
+                Controller._instantiate_next_dowhile_iteration does it, `instantiate_dowhile_next_iteration(doc, k+1, True)`
+                is called k times (working directory + Job created for every new node); optionally the instance is loaded
+                again from disk at some iteration (a restart) and unrolled further. After *every* step the real
+                WorkflowGraph is compared with the reference model (vf/model/c05_dowhile.py): node set, inputs /
+                predecessors / arguments of every looped instance, placeholder metadata (`represents`, `latest`), DoWhile
+                state, and the value of DataReference.resolve() for every reference that consumers outside the loop hold
+                on looped components (:ref/:copy paths, :output contents, :loopref / :loopoutput lists).
+sub `twoloops`: two DoWhile documents (different ones, or the same document imported twice) in one workflow, iterated in a
+                generated interleaving; optionally a restart from the stage of the second loop once the first is over.
+                Same oracles, per loop.
 sub `latestfn`: the pure helper flowir.map_placeholder_id_to_iteration over generated sets of component ids.
+
+A failure whose signature is a known (excluded) finding does not end the case: the remaining oracles and steps are still
+evaluated (collect-then-classify), so the search keeps exploring behind known defects.
 """
 from __future__ import annotations
 
@@ -26,23 +33,31 @@ ID = "C05"
 LEVEL = "exploration"
 RULE = ("DoWhile workflows built by construction: import stage 0-2, 1-4 looped components over <=2 loop stages (optionally "
         "the same name in both), 0-2 inputBindings (ref/output/copy, file given by binding or by use), loopBindings onto "
-        "any looped component (relative/absolute spelling, offset stage), replicate 1-3 with propagation and aggregation "
-        "inside the loop, condition on stdout or a file, 1-2 outside consumers using ref/output/copy/loopref/loopoutput "
-        "(replicated or aggregating when the target is replicated); k drawn in 0..13 (quick, biased to 12-13) / 0..25 "
-        "(thorough), all oracles evaluated after every iteration. Non-trivial = iteration >= 10 reached, or import "
-        "stage > 0 together with a loopBinding; distinct = distinct (workflow shape, k).")
+        "non-replicated looped components (relative/absolute spelling, offset stage), replicate 1-3 with propagation and "
+        "aggregation inside the loop, condition on stdout or a file, 1-2 outside consumers using ref/output/copy/loopref/"
+        "loopoutput (replicated or aggregating when the target is replicated); k drawn in 0..13 (quick, biased to 12-13) "
+        "/ 0..25 (thorough), optional reload of the instance at a drawn iteration; two-loop workflows with interleaved "
+        "iteration orders (per loop up to 12 / 20) and optional restart after the first loop; all oracles evaluated after "
+        "every step. Non-trivial = iteration >= 10 reached, or import stage > 0 together with a loopBinding, or (two "
+        "loops) both loops at different iteration counts; distinct = distinct (workflow shape, history).")
 ASSUMPTIONS = [
     "iterations are instantiated the way Controller._instantiate_next_dowhile_iteration does it (document taken from "
-    "get_document_metadata, next number = state.currentIteration+1, store_flowir_to_disk=True, working directory and "
+    "get_document_metadata, next number = current iteration + 1, store_flowir_to_disk=True, working directory and "
     "Job created for each new node); the controller/engines themselves are not run",
+    "a restart is modelled as: load the instance directory again (Experiment(instance_dir, is_instance=True)) and, for "
+    "a restart from stage N>0, mark the placeholders of stages < N as finished exactly like Controller.initialise does "
+    "(control.py 'Mark all placeholders in stages [0, starting_index) as finished')",
     "component names are letters only and pairwise non-overlapping; references occur once per component (name "
-    "confusion in reference rewriting belongs to other properties)",
+    "confusion in reference rewriting belongs to other properties); consumers outside the loop spell references to "
+    "looped components absolutely (the package validator rejects the relative spelling)",
     "the producer of a loopBinding and of the condition is a non-replicated (plain or aggregating) component: "
     "instantiate_dowhile_next_iteration rejects a replicated loopBinding producer with "
     "FlowIRReferenceToUnknownComponent (no document says it is supported); no :loopref/:loopoutput between looped "
-    "components",
-    "an exception raised by instantiate_dowhile_next_iteration for a document that loaded and validated as iteration 0 "
-    "is reported as a violation (the statement quantifies over every k)",
+    "components; components with the same name in two loop stages only in workflows without replication",
+    "an exception raised by instantiate_dowhile_next_iteration (or by reloading the instance) for a document that "
+    "loaded and validated as iteration 0 is reported as a violation (the statement quantifies over every k)",
+    "two DoWhile documents in one workflow occupy disjoint stage ranges (component ids stay unique)",
+    "map_placeholder_id_to_iteration is called with ids in which the placeholder's name occurs in one stage only",
     "expected paths use the documented instance layout <instance>/stages/stage<N>/<component name>",
 ]
 # one root cause, one signature: the observed value is exactly what comparing iteration numbers as *strings* yields
@@ -51,7 +66,7 @@ SIG_STRSORT = "iteration-numbers-ordered-as-strings"
 SIG_NAMESAKE = "loop-state-from-namesake-component"
 # the instances of placeholders that are already marked finished are not matched any more -> next iteration is refused
 SIG_FINISHED = "finished-placeholder-instances-unmatched"
-TIERS = {"quick": {"shards": 8, "budget": 150}, "thorough": {"shards": 16, "budget": 2400}}
+TIERS = {"quick": {"shards": 8, "budget": 300}, "thorough": {"shards": 16, "budget": 2400}}
 
 
 # ------------------------------------------------------------------------------------------------------------
@@ -157,10 +172,25 @@ class _Run:
         lp.k += 1
         return new
 
+    def reload(self):
+        """Load the instance directory again (what a restart does): the unrolled iterations come back from the FlowIR
+        that instantiate_dowhile_next_iteration(..., store_flowir_to_disk=True) stored."""
+        import experiment.model.data
+        import experiment.model.storage
+        try:
+            inst = experiment.model.storage.ExperimentInstanceDirectory(self.root)
+            self.exp = experiment.model.data.Experiment(inst, is_instance=True)
+        except Exception as e:
+            raise Violation("reload-raised:%s" % type(e).__name__, "loading the instance after %s iteration(s): %s: %s" % (
+                "+".join(str(lp.k) for lp in self.loops), type(e).__name__, " ".join(str(e).split())[:600]))
+        self.wg = self.exp.experimentGraph
+
     def restart_at_stage(self, starting_index):
-        """What Controller.initialise does to the graph when it starts from stage `starting_index` > 0
-        (control.py: "Mark all placeholders in stages [0, starting_index) as finished")."""
+        """A restart from stage `starting_index` > 0: the instance is loaded again, then Controller.initialise marks
+        the placeholders of the skipped stages (control.py: "Mark all placeholders in stages [0, starting_index) as
+        finished")."""
         import experiment.model.codes
+        self.reload()
         for p_ref in self.wg._placeholders:
             if self.G.ComponentIdentifier(p_ref).stageIndex < starting_index:
                 self.wg._placeholders[p_ref]["state"] = experiment.model.codes.FINISHED_STATE
@@ -346,10 +376,18 @@ def check_unroll(case, ctx: Ctx):
         m = run.loops[0].m
         lbl = _labels(case, m)
         run.check()
-        for _ in range(case["k"]):
+        if case.get("reload_at") == 0:
+            run.reload()
+            run.check()
+        for i in range(1, case["k"] + 1):
             run.next_iteration(0)
             run.check()
+            if case.get("reload_at") == i:
+                run.reload()
+                run.check()
         ctx.rec.label(*lbl)
+        if case.get("reload_at") is not None:
+            ctx.rec.label("reload@>=10" if case["reload_at"] >= 10 else "reload@<10")
         ctx.rec.label("k>=10" if case["k"] >= 10 else "k<10")
         nt = case["k"] >= 10 or (case["S"] > 0 and any(b["loop"] for b in case["binds"]))
         if nt:
